@@ -3,8 +3,8 @@
    [Print Assumptions]; statements are pinned in Pins/C16.v.
 
    Vocabulary (Proofs/NexthopProofs.v): an interface processes [event]s - received Ethernet frames
-   (ARP, ICMPv4 echo, ICMPv6 echo / neighbor advertisement / solicitation), IP packets handed to
-   dispatch_ip, address changes, route-table changes.  [nh_run i evs] = final interface and every
+   (ARP, ICMPv4 echo, ICMPv6 echo / neighbor advertisement / solicitation, also with rejected
+   checksums), IP packets handed to dispatch_ip, address changes, set_hardware_addr, route-table changes.  [nh_run i evs] = final interface and every
    frame put on the wire with its time (microseconds); [nh_log i evs] = the learning history:
    CFill k hw t (a validated ARP/NDISC message taught k |-> hw at t, see C16_fill_is_validated),
    CReset k hw t (an accepted IP packet from (k, hw) refreshed the entry at t), CFlush (address
@@ -27,7 +27,7 @@ Print Assumptions C16_cache_bounded.
 Theorem C16_invariant_preserved : forall evs i i' tfr log0,
   1 <= if_cap i -> cache_wf (if_cap i) (if_cache i) -> cache_inv log0 (if_cache i) ->
   nh_run i evs = Ok (i', tfr) ->
-  if_cap i' = if_cap i /\ if_ether i' = if_ether i /\ if_hw i' = if_hw i /\
+  if_cap i' = if_cap i /\ if_ether i' = if_ether i /\
   cache_wf (if_cap i) (if_cache i') /\ cache_inv (log0 ++ nh_log i evs) (if_cache i').
 Proof. exact run_inv. Qed.
 Print Assumptions C16_invariant_preserved.
@@ -204,6 +204,33 @@ Theorem C16_sim_cache_bounded : forall ether hw cap rcap qcap kinds evs st tfr, 
   NoDup (map fst (c_storage (if_cache (sim_if st)))).
 Proof. exact sim_cache_bounded. Qed.
 Print Assumptions C16_sim_cache_bounded.
+
+(* Device back-pressure (transmit() / receive() handing out no token): the socket turn that needs
+   a token ends the egress pass with the interface - neighbor cache and rate limiter - untouched,
+   nothing emitted and every queue as before; received frames stay in the device.  Since the
+   simulation with back-pressure is still a sequence of interface events (C16_sim_refines_events),
+   "only to learned next hops" and "requests >= 1 s apart" hold for the frames actually sent. *)
+Theorem C16_backpressure_keeps_everything : forall i s rest now b s1,
+  bud_empty b = true -> sim_sock_wants_token i s now = Some s1 ->
+  sim_socket_egress i (s :: rest) now b = Ok (i, s1 :: rest, [], false, b) /\
+  sk_q s1 = sk_q s /\ sk_kind s1 = sk_kind s.
+Proof. exact socket_egress_exhausted. Qed.
+Print Assumptions C16_backpressure_keeps_everything.
+
+Theorem C16_backpressure_ingress_waits : forall i rx now b, bud_empty b = true ->
+  sim_ingress i rx now b = Ok (i, [], rx, b).
+Proof. exact ingress_exhausted. Qed.
+Print Assumptions C16_backpressure_ingress_waits.
+
+(* Interface::set_hardware_addr keeps the neighbor cache, addresses and routes; it panics exactly
+   for a non-unicast address (its documented contract). *)
+Theorem C16_set_hardware_addr : forall i hw,
+  (hw_is_unicast i hw = true ->
+     exists i', nh_set_hardware_addr i hw = Ok i' /\ if_hw i' = hw /\ if_cache i' = if_cache i /\
+                if_addrs i' = if_addrs i /\ if_routes i' = if_routes i /\ if_cap i' = if_cap i) /\
+  (hw_is_unicast i hw = false -> nh_set_hardware_addr i hw = Panic).
+Proof. exact set_hardware_addr_spec. Qed.
+Print Assumptions C16_set_hardware_addr.
 
 (* Non-vacuity: concrete histories in which every clause above is exercised. *)
 Theorem C16_example :
